@@ -246,8 +246,15 @@ def eval_case(case, res: core.ShardResult | None = None) -> list:
             if p1 == p2:
                 fails.append(_fail("free-without-effect", f"{name} is reported as free but {base[name]!r} and {altv!r} give the same PDU {p1.hex()}", case))
     for p in case["msg"]["params"]:
-        if p["pk"] in ("const", "physconst", "reserved", "matchreq") and p["name"] not in free:
+        if p["pk"] in ("const", "physconst", "reserved", "matchreq", "nrc") and p["name"] not in free:
             other = 1 if p.get("v") != 1 else 2
+            if p["pk"] == "nrc":
+                # one of its own alternatives, but not the one the overlapping VALUE parameter carries
+                alts = [v for v in p["vals"] if v not in [x for x in (full if full_ok else vals).values() if isinstance(x, int)]]
+                if not alts:
+                    continue
+                other = alts[-1]
+                cls.add("nrc-alternative-supplied")
             base = full if full_ok else vals
             try:
                 p2 = enc(dict(base, **{p["name"]: other}))
